@@ -339,13 +339,16 @@ example : (Requester.process ⟨2, some [⟨1, some 7⟩, ⟨2, some 8⟩], 0, [
   decide
 
 /-- the hypothesis of `reply_delivered_once` holds along every requester history (await / send / peer frames
-    dispatched / peer frames taken by `sync`, including the compaction of the handler array): the ids of
-    the waiting handlers are always pairwise distinct -/
-theorem requester_ids_distinct (idlen : Nat) (ops : List Requester.ROp) :
-    (Requester.activeIds ((Requester.rrun { idlen := idlen } ops).1.arr.getD [])).Nodup :=
-  Requester.distinct_rrun { idlen := idlen } ops (by simp [Requester.Distinct, Requester.activeIds, Requester.active])
-example : (Requester.rrun { idlen := 1 } [.await 7, .send [1], .await 8, .send [2], .sync [[0x82, 5], [0x82, 6]], .await 9,
+    dispatched / peer frames taken by `sync`, including the compaction of the handler array and commands that
+    report failure, `fails`): the ids of the waiting handlers are always pairwise distinct -/
+theorem requester_ids_distinct (fails : Nat → Bool) (idlen : Nat) (ops : List Requester.ROp) :
+    (Requester.activeIds ((Requester.rrun fails { idlen := idlen } ops).1.arr.getD [])).Nodup :=
+  Requester.distinct_rrun fails { idlen := idlen } ops (by simp [Requester.Distinct, Requester.activeIds, Requester.active])
+example : (Requester.rrun (fun _ => false) { idlen := 1 } [.await 7, .send [1], .await 8, .send [2], .sync [[0x82, 5], [0x82, 6]], .await 9,
     .answer [[0x81], [0x83]]]).2 = [⟨some 8, some [5]⟩, ⟨some 7, some []⟩, ⟨some 9, some []⟩] := by decide
+-- a command that reports failure ends the wait; its reply is consumed, the next sync goes on with the following one
+example : (Requester.rrun (· == 8) { idlen := 1 } [.await 7, .send [1], .await 8, .send [2], .sync [[0x82, 5], [0x82, 6], [0x81, 4]],
+    .sync []]).2 = [⟨some 8, some [5]⟩, ⟨some 7, some [4]⟩] := by decide
 
 /-- **refinement Requester ⊑ ReplySpec.ReqSt, dispatching**: from related states (same header width, the waiting
     handlers of the slot array = the spec's pending set, same queue) every message is delivered to the same
@@ -355,12 +358,14 @@ theorem requester_refines_dispatch (x : Requester.St) (sp : ReqSt) (q : List (Li
     Requester.Rel { (Requester.drain q x []).1 with inq := [] } { (deliverAll q sp []).1 with inq := [] } :=
   Requester.rel_drain q x sp [] [] h rfl
 
-/-- **… waiting for replies**: `sync` (mpt_stream_sync: only while a handler waits, only replies, handler array
+/-- **… waiting for replies**: `sync` (mpt_stream_sync: only while a handler waits, only replies, left after a command
+    reported failure — whose reply is consumed and whose registration is released all the same —, handler array
     compacted afterwards) makes the same calls as the spec's "take replies while a request is outstanding" -/
-theorem requester_refines_sync (x : Requester.St) (sp : ReqSt) (fuel : Nat) (h : Requester.Rel x sp) (hf : x.inq.length < fuel) :
-    (Requester.sync x).2.map Requester.callS = (awaitReplies fuel sp.inq sp []).2 ∧
-    Requester.Rel (Requester.sync x).1 (awaitReplies fuel sp.inq sp []).1 :=
-  Requester.rel_sync x sp fuel h hf
+theorem requester_refines_sync (fails : Nat → Bool) (x : Requester.St) (sp : ReqSt) (fuel : Nat) (h : Requester.Rel x sp)
+    (hf : x.inq.length < fuel) :
+    (Requester.sync fails x).2.map Requester.callS = (awaitReplies fails fuel sp.inq sp []).2 ∧
+    Requester.Rel (Requester.sync fails x).1 (awaitReplies fails fuel sp.inq sp []).1 :=
+  Requester.rel_sync fails x sp fuel h hf
 
 /-- **… new requests**: the id `await` assigns (mpt_command_reserve) is one the spec accepts as fresh (≥ 1, fits
     the header, not in use), and the request is pending in both afterwards -/
